@@ -1158,6 +1158,11 @@ class Sequence:
         returns a tuple of (dmax, seqDeltaMax)
         """
 
+        # If the permutant is wanted but was never recorded (dmax was cached by an
+        # earlier value-only call or handed over by a parent) redo the search
+        if returnSeqDeltaMax and self.seqDeltaMax is None:
+          self.dmax = -1
+
         # If this has been computed already, then return it
         if self.dmax != -1 and not returnSeqDeltaMax:
           return self.dmax
